@@ -358,7 +358,7 @@ def main(tier):
         if c['key'] in seen:
             continue
         seen.add(c['key'])
-        ok, dev = replay(chk, h, c)
+        ok, dev = safe_replay(replay, chk, h, c)
         if ok:
             chk.report(c['key'], '%s; native deviation %.3g' % (c['what'], dev), c)
         else:
@@ -369,7 +369,7 @@ def main(tier):
 def replay_main(path):
     c = json.load(open(path))['replay']
     chk = Check(PID, 'quick')
-    ok, dev = replay(chk, Harness(CPP, LIBS), c)
+    ok, dev = safe_replay(replay, chk, Harness(CPP, LIBS), c)
     print('replay %s: %s (deviation %.3g)' % (path, 'REPRODUCED' if ok else 'not reproduced', dev))
     return 1 if ok else 0
 
